@@ -15,7 +15,7 @@
    absent at that flush are empty). *)
 From Coq Require Import NArith List Permutation.
 From LV Require Import lib.Bytes model.CrashBase model.SyncedPool model.Flagged
-  proofs.CrashBaseProofs proofs.SyncedPoolProofs proofs.FlaggedProofs proofs.FlaggedAnyIds.
+  proofs.CrashBaseProofs proofs.SyncedPoolProofs proofs.FlaggedProofs proofs.FlaggedAnyIds proofs.CrashSessions.
 Import ListNotations.
 Local Open Scope N_scope.
 
@@ -35,15 +35,75 @@ Theorem C25_flagged_crash_consistent : forall fk h k l,
   crash_consistent fk (fr_recs (run_flagged fk h)) k (crash (fr_log (run_flagged fk h)) k) l.
 Proof. exact flagged_crash_consistent. Qed.
 
-(* Without any assumption on the flush IDs: the record may be that of the flush in progress at the
-   crash point (it is a record of the history; its position is bounded by the end of the log
-   instead of by k). *)
+(* Without any assumption on the flush IDs: the record completed at or before k, or it is the FIRST
+   record of the history that completes after k, i.e. the flush in progress at the crash point
+   (CrashBase.rec_at / crash_consistent_ip). *)
 Theorem C25_flagged_crash_consistent_any_ids : forall fk h k l,
   history_avoids fk h = true ->
   lists_world l (crash (fr_log (run_flagged fk h)) k) ->
-  crash_consistent fk (fr_recs (run_flagged fk h)) (max k (length (fr_log (run_flagged fk h))))
-                   (crash (fr_log (run_flagged fk h)) k) l.
+  crash_consistent_ip fk (fr_recs (run_flagged fk h)) k (crash (fr_log (run_flagged fk h)) k) l.
 Proof. exact flagged_crash_consistent_any_ids. Qed.
+
+(* The other direction (an implementation that always reports "dirty" does not satisfy the theorem
+   set): a crash exactly when a flush has returned is reported as that flush, by any visiting order,
+   whenever a database survives. *)
+Theorem C25_pool_flush_reported : forall fk scale h rc l,
+  history_avoids fk h = true -> In rc (rs_recs (run_pool fk scale h)) ->
+  lists_world l (crash (rs_log (run_pool fk scale h)) (r_pos rc)) -> l <> [] ->
+  check_synced fk l = COk (Some (mark_of CLEAN (r_id rc))).
+Proof. exact pool_flush_reported. Qed.
+Theorem C25_flagged_flush_reported : forall fk h rc l,
+  history_avoids fk h = true -> In rc (fr_recs (run_flagged fk h)) ->
+  lists_world l (crash (fr_log (run_flagged fk h)) (r_pos rc)) -> l <> [] ->
+  check_synced fk l = COk (Some (mark_of CLEAN (r_id rc))).
+Proof. exact flagged_flush_reported. Qed.
+
+(* Several sessions.  A session ends in a crash after k durable operations; a new SyncedPool is
+   Initialize()d over the survivors (restart_pool: opens every name, CheckDBsSynced; unflushed writes
+   and queued drops are lost, flushes not completed by k never completed); when it succeeds the next
+   session's history runs on it.  After any number of such sessions, every crash point of the
+   combined durable log is consistent with the flushes completed in this timeline. *)
+Theorem C25_pool_sessions_crash_consistent : forall fk scale ss s h k l,
+  sessions_avoid fk ss = true -> run_sessions fk scale run_init ss = Some s ->
+  history_avoids fk h = true ->
+  let s' := fold_left (run_step fk scale) h s in
+  lists_world l (crash (rs_log s') k) ->
+  crash_consistent fk (rs_recs s') k (crash (rs_log s') k) l.
+Proof. exact pool_sessions_crash_consistent. Qed.
+(* The flagged producer, two sessions; the first flush of the second session must not re-use the ID
+   the recovery reported. *)
+Theorem C25_flagged_two_sessions : forall fk h1 k1 o s1 h2 k l,
+  history_avoids fk h1 = true -> flush_ids_change None h1 = true ->
+  restart_flagged fk (run_flagged fk h1) k1 o = Some s1 ->
+  history_avoids fk h2 = true ->
+  flush_ids_change (verdict_id (check_synced fk (crash (fr_log (run_flagged fk h1)) k1))) h2 = true ->
+  let s2 := fold_left (frun_step fk) h2 s1 in
+  lists_world l (crash (fr_log s2) k) ->
+  crash_consistent fk (fr_recs s2) k (crash (fr_log s2) k) l.
+Proof. exact flagged_two_sessions. Qed.
+
+(* Initialize(names, f) with an expected flush ID f (CheckDBsSynced started with flushID = f): an OK
+   verdict reports f itself and has the same meaning; "no flush" is never reported then. *)
+Theorem C25_pool_crash_consistent_expected : forall fk scale h k l f m,
+  history_avoids fk h = true ->
+  lists_world l (crash (rs_log (run_pool fk scale h)) k) -> l <> [] ->
+  check_loop fk l (Some f) false = COk (Some m) ->
+  m = f /\
+  exists rc, In rc (rs_recs (run_pool fk scale h)) /\ (r_pos rc <= k)%nat /\ m = mark_of CLEAN (r_id rc) /\
+    forall n c, wget n (crash (rs_log (run_pool fk scale h)) k) = Some c ->
+      match wget n (r_snap rc) with Some s => db_eq c s | None => db_empty c end.
+Proof. exact pool_crash_consistent_expected. Qed.
+Theorem C25_flagged_crash_consistent_expected : forall fk h k l f m,
+  history_avoids fk h = true -> flush_ids_change None h = true ->
+  lists_world l (crash (fr_log (run_flagged fk h)) k) -> l <> [] ->
+  check_loop fk l (Some f) false = COk (Some m) ->
+  m = f /\
+  exists rc, In rc (fr_recs (run_flagged fk h)) /\ (r_pos rc <= k)%nat /\ m = mark_of CLEAN (r_id rc) /\
+    forall n c, wget n (crash (fr_log (run_flagged fk h)) k) = Some c ->
+      match wget n (r_snap rc) with Some s => db_eq c s | None => db_empty c end.
+Proof. exact flagged_crash_consistent_expected. Qed.
+Theorem C25_expected_never_none : forall fk l f, check_loop fk l (Some f) false <> COk None.
+Proof. exact check_expected_not_none. Qed.
 
 (* Recovery reads the verdict off the marks alone: an OK verdict means every surviving database
    carries exactly that (non-dirty) mark, "no flush" means no database carries a mark. *)
@@ -70,6 +130,13 @@ Example C25_pool_example :
   map r_pos (rs_recs (run_pool C25Ex.fk 1 C25Ex.h)) = [8%nat; 12%nat].
 Proof. vm_compute. repeat split. Qed.
 
+(* two crashed sessions of the example history (after the queued drop of flush 2; in the middle of it: refused) *)
+Example C25_sessions_example :
+  (exists s, run_sessions C25Ex.fk 1 run_init [(C25Ex.h, 9%nat, [])] = Some s /\
+             map fst (p_wr (rs_pool s)) = [1] /\ map r_pos (rs_recs s) = [8%nat]) /\
+  run_sessions C25Ex.fk 1 run_init [(C25Ex.h, 10%nat, [])] = None.
+Proof. split; [eexists; split; [vm_compute; reflexivity|split; reflexivity]|vm_compute; reflexivity]. Qed.
+
 Example C25_flagged_example :
   history_avoids C25Ex.fk C25Ex.h = true /\ flush_ids_change None C25Ex.h = true /\
   map (fun k => check_synced C25Ex.fk (crash (fr_log (run_flagged C25Ex.fk C25Ex.h)) k)) (seq 0 13)
@@ -86,6 +153,13 @@ Proof. exact flagged_same_id_counterexample. Qed.
 Print Assumptions C25_pool_crash_consistent.
 Print Assumptions C25_flagged_crash_consistent.
 Print Assumptions C25_flagged_crash_consistent_any_ids.
+Print Assumptions C25_pool_sessions_crash_consistent.
+Print Assumptions C25_flagged_two_sessions.
+Print Assumptions C25_pool_crash_consistent_expected.
+Print Assumptions C25_flagged_crash_consistent_expected.
+Print Assumptions C25_expected_never_none.
+Print Assumptions C25_pool_flush_reported.
+Print Assumptions C25_flagged_flush_reported.
 Print Assumptions C25_check_ok_some.
 Print Assumptions C25_check_ok_none.
 Print Assumptions C25_check_order_independent.
